@@ -206,3 +206,13 @@ Definition src2_count (v_self : pyval) : pyval :=
    | BExc n_2 => (PExc n_2)
    | BErr => PErr
    end).
+
+(* /verif/work/C02/slices/response_parse_assertion_one.py:parse_assertion__one, lines 2-4 *)
+Definition src2_one (v_self : pyval) : pyval :=
+  (match p2_branch (p2_and (p2_ne (p2_attr_x v_self "context") (PStr "AuthnQuery")) (p2_and (p2_gt (p2_len (p2_attr_x v_self "assertions")) (PInt (1)%Z)) (p2_not (p2_attr_x (p2_attr_x v_self "response") "signature")))) with
+   | BTrue => (py_bind (p2_fconcat [PStr "Invalid number of assertions in Response: "; p2_str (p2_len (p2_attr_x v_self "assertions"))]) (fun _ =>
+   (PExc "InvalidAssertion")))
+   | BFalse => PNone
+   | BExc n_1 => (PExc n_1)
+   | BErr => PErr
+   end).
